@@ -20,6 +20,7 @@ import (
 	"fmt"
 	"io"
 	"os"
+	"path/filepath"
 	"runtime"
 	"sort"
 	"strings"
@@ -364,11 +365,13 @@ func (this *BlockDecompressor) Decompress() (int, uint64) {
 		if fi.IsDir() {
 			inputIsDir = true
 
-			if len(formattedInName) > 1 && formattedInName[len(formattedInName)-1] == '.' {
-				formattedInName = formattedInName[0 : len(formattedInName)-1]
-			}
+			// The names in the file list are cleaned paths ("./dir", "dir/", "dir/." all
+			// give "dir/file"): the prefix removed from them must have the same form
+			formattedInName = filepath.Clean(formattedInName)
 
-			if formattedInName[len(formattedInName)-1] != os.PathSeparator {
+			if formattedInName == "." {
+				formattedInName = ""
+			} else if formattedInName[len(formattedInName)-1] != os.PathSeparator {
 				formattedInName += string(os.PathSeparator)
 			}
 
